@@ -20,7 +20,10 @@ QB_KINDS = ["eee", "cse", "sne", "nec", "eeed", "ncs", "ssn"]
 
 PROP_RULE = ("cases are histories of store operations (mutators + observers); exhaustive scope: every mutator "
              "history of the stated length over quads {1,2}x{1,2}x{1} in graphs {default,g0,g1} with the full observer "
-             "battery after every step; random scope: 40-step histories over 4 terms and 4 graphs. A case is "
+             "battery after every step; large-graph scope: 15..1025 (thorough: ..4097) quads in one default or named graph, "
+             "sizes straddling powers of two and multiples of ten, then ClearG / Drop / delete-all / Rebuild / ClearAll, re-insertion "
+             "and a second clear, with all 8 lookup shapes and the cross-graph read paths observed before and after; random "
+             "scope: 40-step histories over 4 terms and 4 graphs. A case is "
              "non-trivial when at least one observer output in it is a non-empty quad/graph list and at least one "
              "mutator returned true (or an add_triple_parts insert, which returns nothing, was performed); distinct by "
              "the entry point (index/db/parts) plus the rendered history. Observers include the QueryBuilder read path "
@@ -218,14 +221,145 @@ def random_history(rng, n):
     return ops
 
 
+# ---- large graphs -------------------------------------------------------------------------------
+# Sizes straddle powers of two and multiples of ten: size-gated code paths (bulk clear, rehash, batch
+# thresholds) are unreachable from the small universes above.
+LARGE_FINALES = ["ClearG", "Drop", "DeleteAll", "Rebuild", "ClearAll"]
+
+
+def block_quads(n, g, perm):
+    """n distinct quads in graph g over a cube of side ceil(n^(1/3)); all three positions take several values."""
+    a = 1
+    while a * a * a < n:
+        a += 1
+    return [[perm[i % a], perm[(i // a) % a], perm[i // (a * a)], g] for i in range(n)]
+
+
+def side(n):
+    a = 1
+    while a * a * a < n:
+        a += 1
+    return a
+
+
+def obs_block(g, q0, q1, other):
+    """Observers on graph g: all 8 shapes with the terms of q0, the 7 bound shapes of q1, the cross-graph
+    read paths in the object-/subject-/predicate-led shapes, membership and graph listing."""
+    b = []
+    for s in (None, q0[0]):
+        for p in (None, q0[1]):
+            for o in (None, q0[2]):
+                b.append(["QGraph", g, s, p, o])
+                if g == 0:
+                    b.append(["QB", s, p, o, "eee"])
+    for s in (None, q1[0]):
+        for p in (None, q1[1]):
+            for o in (None, q1[2]):
+                if (s, p, o) != (None, None, None):
+                    b.append(["QGraph", g, s, p, o])
+    vis = sorted({g, other} - {0}) or [other]
+    b += [["QNamed", None, None, q0[2], None], ["QNamed", q0[0], None, q0[2], vis], ["QNamed", None, q1[1], None, None],
+          ["QNamed", q1[0], None, None, vis], ["QNamed", q0[0], q0[1], q0[2], None],
+          ["QQuads", None, None, q0[2], None], ["QQuads", q0[0], None, q0[2], g], ["QQuads", None, q1[1], None, None],
+          ["QQuads", q1[0], None, None, g], ["QQuads", None, None, q1[2], g],
+          ["QMerged", [g, other], None, None, q0[2]], ["QMerged", [g], q0[0], None, None], ["QMerged", [other, g], None, q1[1], q1[2]],
+          ["LenG", g], ["GExists", g], ["Graphs"], ["NamedGraphs"], ["AllQuads"],
+          ["Contains"] + q0[:3] + [g], ["Contains"] + q1[:3] + [g], ["GraphsFor"] + q0[:3], ["GraphsFor"] + q1[:3]]
+    if g == 0:
+        b += [["QBCount", None, None, None, "eee"], ["QBDec", None, None, q0[2], "eee"], ["QBCount", q1[0], None, q1[2], "eee"]]
+    return b
+
+
+def large_history(n, g, finale, rng):
+    a = side(n)
+    nterms = max(10, a + 1)
+    perm = list(range(nterms))
+    rng.shuffle(perm)
+    quads = block_quads(n, g, perm)
+    other = 1 if g != 1 else 3
+    q0, q1 = quads[n // 2], quads[-1]
+    fresh = [perm[a], q0[1], q0[2], g]           # a subject that does not occur in the block
+    obs = obs_block(g, q0, q1, other)
+    ops = [["I"] + quads[0][:3] + [other], ["I"] + q0[:3] + [other], ["I"] + q0[:3] + [0 if g != 0 else 2]]
+    ops += [["I"] + q for q in quads]
+    ops += obs
+    second = "Drop"
+    if finale == "ClearG":
+        ops += [["ClearG", g]]
+    elif finale == "Drop":
+        ops += [["Drop", g]]
+        second = "ClearG"
+    elif finale == "DeleteAll":
+        order = quads[::-1] if n % 2 else quads[1::2] + quads[0::2]
+        ops += [["D"] + q for q in order]
+    elif finale == "Rebuild":
+        ops += [["Rebuild"]] + obs + [["ClearG", g]]
+    elif finale == "ClearAll":
+        ops += [["ClearAll"]]
+    ops += obs
+    if g != 0:
+        ops += [["Create", g], ["GExists", g]]
+    ops += [["I"] + quads[0], ["I"] + fresh, ["I"] + q1, ["I"] + quads[0]]
+    ops += obs + [["QGraph", g, fresh[0], None, None], ["QGraph", g, None, None, fresh[2]]]
+    ops += [[second, g]] + obs + [["Rebuild"]] + obs[:8]
+    return {"ops": ops, "battery": [], "nterms": nterms, "size": n, "finale": finale}
+
+
+def large_cases(ctx):
+    cases = []
+    combos = [("ClearG", 2), ("Drop", 0), ("ClearG", 0), ("Drop", 2)]
+
+    def add(n, finale, g):
+        c = large_history(n, g, finale, ctx.rng)
+        c["via"] = VIAS[len(cases) % 3]
+        cases.append(c)
+    if ctx.thorough:
+        for n in [15, 16, 17, 30, 31, 32, 33, 40, 63, 64, 65, 100, 127, 128, 129, 255, 256, 257, 1000, 1024, 1025]:
+            for f in LARGE_FINALES:
+                for g in (0, 2):
+                    add(n, f, g)
+        for n in [2049, 4097]:
+            for f, g in combos:
+                add(n, f, g)
+    else:
+        k = 0
+        for n in [15, 16, 17, 31, 32, 63, 64, 65, 127, 128, 129, 255, 256, 257]:   # one combination each, rotating
+            add(n, *combos[k % 4])
+            k += 1
+        for n in [33, 40, 100, 130, 260]:                                           # every combination
+            for f, g in combos:
+                add(n, f, g)
+        for n in [40, 130]:
+            for f in ("DeleteAll", "Rebuild", "ClearAll"):
+                for g in (0, 2):
+                    add(n, f, g)
+        add(1000, "ClearG", 2)
+        add(1025, "Drop", 0)
+    cases.sort(key=lambda c: c["size"])    # the first violation reported is the smallest witness
+    return cases
+
+
+def load_corpus_files():
+    d = os.path.join(vf.VERIF, "corpus", "C04")
+    out = []
+    if os.path.isdir(d):
+        for fn in sorted(os.listdir(d)):
+            if fn.endswith(".json"):
+                import json
+                c = json.load(open(os.path.join(d, fn)))
+                c.setdefault("battery", [])
+                out.append(c)
+    return out
+
+
 # ---- the check --------------------------------------------------------------------------------
-def evaluate(ctx, binpath, cases, stream):
+def evaluate(ctx, binpath, cases, stream, chunk=None):
     impl = ctx.run_impl(binpath, cases)
     exprs = []
     for c in cases:
         b, o = ops_coq(c["battery"]), ops_coq(c["ops"])
         exprs.append("(model_run %s %s, spec_run %s %s)" % (b, o, b, o))
-    model = ctx.run_model("Store", ["KV.Store.Model", "KV.Store.Spec", "KV.Store.Run"], exprs)
+    model = ctx.run_model("Store", ["KV.Store.Model", "KV.Store.Spec", "KV.Store.Run"], exprs, chunk=chunk)
     nmis = nviol = 0
     for c, im, mo in zip(cases, impl, model):
         ctx.count()
@@ -259,7 +393,10 @@ def evaluate(ctx, binpath, cases, stream):
             k, j, x, y = bad
             opseq = c["ops"][:k + 1]
             obs = c["ops"][k] if j == 0 else c["battery"][j - 1]
-            ctx.violation({"ops": opseq, "observer": obs, "via": via_of(c)},
+            vc = {"ops": opseq, "observer": obs, "via": via_of(c)}
+            if c.get("nterms"):
+                vc["nterms"] = c["nterms"]
+            ctx.violation(vc,
                           {"what": "a store read path disagrees with the abstract quad set",
                            "after_history": opseq, "observer": obs, "implementation": x, "spec": y})
             nviol += 1
@@ -271,6 +408,7 @@ def evaluate(ctx, binpath, cases, stream):
             any(x.get("unit") and op[0] == "I" for st, op in zip(i_run, c["ops"]) for x in st[:1])
         if any((x.get("quads") or x.get("graphs")) for x in flat) and grew:
             ctx.nontrivial([via_of(c)] + c["ops"])
+    ctx.log("stream %s: %d cases evaluated" % (stream, len(cases)))
     allops = [op for c in cases for op in c["ops"] + c["battery"]]
     ctx.stream(stream, cases=len(cases), impl_model_mismatches=nmis, spec_violations=nviol,
                via={v: sum(1 for c in cases if via_of(c) == v) for v in VIAS},
@@ -300,6 +438,7 @@ def run(ctx):
         {"ops": [["I", 1, 2, 1, 0], ["I", 1, 2, 1, 2], ["I", 2, 2, 1, 0], ["I", 1, 1, 1, 0], ["D", 1, 2, 1, 0], ["Rebuild"],
                  ["D", 1, 2, 1, 2], ["I", 1, 2, 1, 0], ["Drop", 0]], "battery": bat, "via": "parts"},
     ]
+    corpus += load_corpus_files()
     evaluate(ctx, binpath, corpus, "corpus")
     # exhaustive small scope
     L = 3 if ctx.thorough else 2
@@ -320,6 +459,15 @@ def run(ctx):
     ctx.coverage["exhaustive_scope"] = ("all %d^%d mutator histories of length %d, %d observers after every step (entry point index/db/parts "
                                         "by position); all %d^%d histories of the string-level mutators + Rebuild through the string-level entry "
                                         "points, %d observers after every step") % (len(muts), L, L, len(bat), len(sm), L, len(light))
+    # large graphs
+    lg = large_cases(ctx)
+    ctx.sample({"large_graph_case": {"size": lg[len(lg) // 2]["size"], "finale": lg[len(lg) // 2]["finale"],
+                                     "ops_head": lg[len(lg) // 2]["ops"][:5], "n_ops": len(lg[len(lg) // 2]["ops"])}})
+    evaluate(ctx, binpath, lg, "large_graph", chunk=1)   # one coqc per case: the 1000-quad cases do not queue behind each other
+    ctx.stream("large_graph", sizes=sorted({c["size"] for c in lg}),
+                                      finales={f: sum(1 for c in lg if c["finale"] == f) for f in LARGE_FINALES},
+                                      default_graph=sum(1 for c in lg if c["ops"][3][4] == 0),
+                                      named_graph=sum(1 for c in lg if c["ops"][3][4] != 0))
     # random
     n = 2000 if ctx.thorough else 240
     rnd = []
@@ -347,5 +495,7 @@ def replay(ctx):
     c = ctx.replay["case"]
     case = {"ops": c["ops"][:-1] + [c["ops"][-1]], "battery": [c["observer"]] if c.get("observer") else [],
             "via": c.get("via") or ("db" if c.get("via_db") else "index")}
+    if c.get("nterms"):
+        case["nterms"] = c["nterms"]
     evaluate(ctx, binpath, [case], "replay")
     ctx.finish(level="proof", rule=PROP_RULE)
